@@ -55,6 +55,14 @@ PROPS = {
                                 "time, rate estimators and the piece store are oracles of the model (values found by search, checked to be admissible)"],
         assumptions=["scheduler commands (PeerRequest/PeerHave) name existing blocks/pieces, as the torrent loop guarantees"],
     ),
+    "C09": dict(
+        level_text="c09_peer_conserves: for every step of the peer core (Model/PeerCore.v, the model tied to peer.go by checks C05/C11/C16 on every run: any message, command, expiry or upload tick, any congestion and oracle values) and every block, held-after + TorData/TorDrop emitted = held-before + occurrences in a PeerRequest command; c09_exit_releases: the exit path releases everything; c09_handler_releases_one: the torrent's TorData/TorDrop handler releases exactly the named block, incl. the final short one. c09_invariant / c09_conserved_at_quiescence / c09_zero_when_alone: in the system of Model/Sched.v (any number of peers joining, being commanded, handling commands/messages/ticks in any order, exiting with commands still queued, the torrent handling events in order, arbitrary transit delays) in-flight = held by running peers + queued commands + releases in transit in every reachable state, hence equals the outstanding requests at quiescence and is zero when nobody is connected. Tie: 120 (quick) scenarios on the real event handler (handleEvent, periodicRequest, piece store) with real peer.Run goroutines over in-memory connections to scripted remote peers (join with bitfield/have-all/none, fast, small queue depth, unchoke/choke, have, good/corrupt/duplicate/unrequested blocks, reject, departure racing with the scheduler): every handled event's effect on inFlight/available is compared with the model, and at every quiescent point inFlight is audited against the requests actually held by the connected peers and available against their bitmaps; at the end everybody leaves and all counters must be zero.",
+        level_note="availability conservation is judged by the audits (no theorem yet); web-seed fetches are covered by C14's writer accounting, not by this harness; request expiry is covered by the peer-core theorem and C11's harness, not exercised here (it needs tens of seconds of real time). The system model has FIFO delivery per queue as the Go channels do.",
+        harness="swarm", args=["-prop", "C09"], check_module="SchedCheck",
+        n_quick=120, n_thorough=1500,
+        trusted=COMMON_TRUST + ["verif hooks tor/export_verif.go (VerifInit, VerifHandleEvent, VerifPeriodicRequest, VerifPeers, VerifInFlight, VerifAvailable), peer/export_verif.go (VerifState)", "the harness's quiescence detection (activity counters stable; a failed audit is repeated after a long pause before it counts)", "the scripted remote peers and the in-memory pipe"],
+        assumptions=["a state read of an idle peer goroutine after a synchronous GetStatus round trip is consistent"],
+    ),
     "C11": dict(
         level_text="Theorems about the peer model: every Request added by maybeRequest, for any pipelining decision, comes from a scheduler-queued block, for a piece the peer advertised, sent while unchoked or allowed-fast (c11_requests_send_time); for every block of a well-formed geometry the computed index/offset/length are in range, aligned and exactly min(16 KiB, rest) (c11_request_fields, incl. the >4 GiB overflow fixed in fromChunk); outstanding requests never exceed max(2, reqq) (c11_pipeline_depth); PEX as a transition system with the remote's view as ghost state: never announce twice, never drop an unannounced address, every departure queued and drained in ceil(n/50) ticks (c11_pex_*), tied to sendPex by c11_pex_refines. Monitors on the implementation per step: request/cancel/have conformance against the peer's advertised state, no duplicates, queue depth, PEX deltas. Tie as for C05 (histories weighted towards requests, cancels, PEX).",
         level_note="Partial: the Cancel clause and the no-duplicate-outstanding clause are monitors on the implementation (not yet theorems); the initial Bitfield/HaveAll/HaveNone advertisement of peer.Run is checked by C17's real-connection harness. Trusted as C05.",
